@@ -3,6 +3,7 @@ package flows
 import (
 	"reflect"
 	"strconv"
+	"strings"
 
 	"github.com/nyaruka/goflow/envs"
 	"github.com/nyaruka/goflow/excellent/types"
@@ -54,5 +55,12 @@ var RunContextTopLevels = []string{
 
 // ContactQueryEscaping is the escaping function used for expressions in contact queries
 func ContactQueryEscaping(s string) string {
-	return strconv.Quote(s)
+	quoted := strconv.Quote(s)
+
+	// the query lexer treats any quote preceded by a backslash character as part of the literal, even if that
+	// backslash is itself escaped, so a trailing backslash is written as a unicode escape
+	if strings.HasSuffix(s, `\`) {
+		quoted = quoted[:len(quoted)-3] + `\u005c"`
+	}
+	return quoted
 }
